@@ -66,6 +66,7 @@ type c06Machine struct {
 	inflight int32
 	maxSeen  int32
 	uses     int64
+	firstRun string // (setup modes 1-3) its outcome on table 0 right after it was compiled, before the next compilation
 }
 
 var (
@@ -108,37 +109,88 @@ func c06JoinInfo() []xpath.CustomFunctionInfo {
 	}}
 }
 
-func c06Setup(seed int64) {
+// c06SetupFails: what the setup itself observed (reported by the case that triggered it)
+var c06SetupFails [][2]string
+var c06SetupMode int
+
+func c06FirstRun(cm *c06Machine) string {
+	t := &xpmock.Tree{Default: c06Tables[0]}
+	out := xpmock.Run(cm.m, t)
+	v, _ := out.ScalarVal()
+	return fmt.Sprintf("err=%q panic=%q kind=%s val=%s str=%q calls=%s", out.Err, out.Panic, out.Kind, v, out.Str, strings.Join(t.Calls, ";"))
+}
+
+// c06Setup compiles the shared machines.  The list of sources is the same in every worker process; the order in
+// which they are compiled is not: mode 0 (a quarter of the processes) compiles them in list order and runs
+// nothing (so that the rounds' runs are the first ever); modes 1 and 3 compile in reverse order, mode 2 in list
+// order, and these three run every machine once right after it is compiled and once more when all are
+// compiled: what a machine gives does not depend on what is compiled after it.
+func c06Setup(seed int64, firstIdx int) {
 	r := core.CaseRng(seed, "C06-setup", 0)
-	for _, src := range c06ExtraSources {
-		if m, err := expr.NewExprMachine(src, c02PfxMap); err == nil {
-			c06Machines = append(c06Machines, &c06Machine{src: src, m: m})
-			c06Extra++
-		}
-	}
+	c06SetupMode = core.CaseRng(seed, "C06-setup-order", firstIdx).Intn(4)
 	// a custom (plugin-style) function, registered once before anything runs: a pure function of its
 	// two operands, so every run must see exactly its own operands
 	xpath.RegisterCustomFunctions(c06JoinInfo())
-	for _, src := range []string{"verif-join(a, b)", "verif-join(../x, concat(a, 'k')) = verif-join(b, 'z')", "string-length(verif-join(/r/s[k = current()/../a]/t, a)) > 3"} {
-		if m, err := expr.NewExprMachineWithCustomFunctions(src, c02PfxMap); err == nil {
-			c06Machines = append(c06Machines, &c06Machine{src: src, m: m})
-			c06Extra++
-			c06Custom++
-		}
+	type cand struct {
+		src           string
+		extra, custom bool
 	}
-	for len(c06Machines) < 48+c06Extra {
+	var cands []cand
+	for _, src := range c06ExtraSources {
+		cands = append(cands, cand{src, true, false})
+	}
+	for _, src := range []string{"verif-join(a, b)", "verif-join(../x, concat(a, 'k')) = verif-join(b, 'z')", "string-length(verif-join(/r/s[k = current()/../a]/t, a)) > 3"} {
+		cands = append(cands, cand{src, true, true})
+	}
+	for i := 0; i < 48; i++ {
 		var e *xp.Node
-		if len(c06Machines)%2 == 0 {
+		if (len(cands))%2 == 0 {
 			e = c02GenExpr(r)
 		} else {
 			e = xp.GenExpr(r, xp.Type(r.Intn(3)), r.Range(1, 3), &xp.GenCfg{LeafNames: c01LeafNames})
 		}
-		src := xp.Render(e, xp.RenderFull)
-		m, err := expr.NewExprMachine(src, c02PfxMap)
+		cands = append(cands, cand{xp.Render(e, xp.RenderFull), false, false})
+	}
+	order := make([]int, len(cands))
+	for i := range order {
+		order[i] = i
+		if c06SetupMode%2 == 1 {
+			order[i] = len(cands) - 1 - i
+		}
+	}
+	slots := make([]*c06Machine, len(cands))
+	for _, i := range order {
+		var m *xpath.Machine
+		var err error
+		if cands[i].custom {
+			m, err = expr.NewExprMachineWithCustomFunctions(cands[i].src, c02PfxMap)
+		} else {
+			m, err = expr.NewExprMachine(cands[i].src, c02PfxMap)
+		}
 		if err != nil {
 			continue
 		}
-		c06Machines = append(c06Machines, &c06Machine{src: src, m: m})
+		slots[i] = &c06Machine{src: cands[i].src, m: m}
+		if c06SetupMode != 0 {
+			slots[i].firstRun = c06FirstRun(slots[i])
+		}
+	}
+	for i, cm := range slots {
+		if cm == nil {
+			continue
+		}
+		if c06SetupMode != 0 {
+			if now := c06FirstRun(cm); now != cm.firstRun {
+				c06SetupFails = append(c06SetupFails, [2]string{cm.src, "right after its compilation: " + cm.firstRun + "\nafter the other machines were compiled: " + now})
+			}
+		}
+		c06Machines = append(c06Machines, cm)
+		if cands[i].extra {
+			c06Extra++
+		}
+		if cands[i].custom {
+			c06Custom++
+		}
 	}
 	for len(c06Sources) < 200 {
 		switch r.Intn(5) {
@@ -273,7 +325,20 @@ func c06Exec(o c06Op, concurrent bool) string {
 
 func (p *c06) Run(tier string, seed int64, idx int) core.CaseResult {
 	var res core.CaseResult
-	c06Once.Do(func() { c06Setup(seed) })
+	c06Once.Do(func() {
+		c06Setup(seed, idx)
+		res.Ev("setups", 1)
+		res.AddSet("setup_modes_seen", strconv.Itoa(c06SetupMode))
+		if c06SetupMode != 0 {
+			res.Ev("machines_run_right_after_their_compilation_and_again_after_all_compilations", int64(len(c06Machines)))
+		}
+		if c06SetupMode%2 == 1 {
+			res.Ev("setups_compiling_in_reverse_order", 1)
+		}
+		for _, f := range c06SetupFails {
+			res.Fail("C06/result-changed-by-later-compilations", jsonStr(map[string]interface{}{"expr": f[0], "setup_mode": c06SetupMode}), f[1])
+		}
+	})
 	r := core.CaseRng(seed, "C06", idx)
 	const G, K = 16, 50
 	// few machines per round, many goroutines
